@@ -54,6 +54,13 @@ Definition xor_spec (b key : list Z) : list Z :=
   | _ => map (fun '(i, x) => Z.lxor x (nth (i mod length key)%nat key 0)) (combine (seq 0 (length b)) b)
   end.
 
+(* ---- the text form of a key: PublicKey/PrivateKey.String and Parse ----------------------- *)
+(* String prints every byte as two hex digits (a byte below 16 as '0' and its low digit), Parse reads
+   two digits back as (first << 4) | second; digits are their values 0..15, the colons carry nothing *)
+Definition hex_enc (b : list Z) : list (Z * Z) :=
+  map (fun x => if x <? 16 then (0, x mod 16) else (x / 16, x mod 16)) b.
+Definition hex_dec (d : list (Z * Z)) : list Z := map (fun '(h, l) => h * 16 + l) d.
+
 (* ---- the share ------------------------------------------------------------ *)
 Definition share_size : nat := 65.
 Definition zero_share : list Z := repeat 0 share_size.
@@ -437,7 +444,8 @@ Inductive case :=
 | CXor (buf key out : list Z)                 (* subtle.XorOp / Chunk.KeyCrypt on buf with key *)
 | CFill (old bytes out : list Z)              (* fillShared over the previous share `old`, ECDH bytes from crypto/ecdh *)
 | CHist (tab : list (Z * Z * list Z)) (k0 s0 : Z) (rounds : list (list (event Z) * obs))
-| CPick (queued is_client in_channel i : bool) (observed : Z).   (* the real pick() called repeatedly in this situation *)
+| CPick (queued is_client in_channel i : bool) (observed : Z)
+| CHex (key : list Z) (digits : list (Z * Z)).                  (* digits of PublicKey/PrivateKey.String() of these key bytes *)   (* the real pick() called repeatedly in this situation *)
 
 Definition check (c : case) : bool :=
   match c with
@@ -445,4 +453,6 @@ Definition check (c : case) : bool :=
   | CFill old bytes out => zlist_eqb (fill_shared old bytes) out
   | CHist tab k0 s0 rounds => run_rounds tab (init (fun x => x) k0 s0) rounds
   | CPick queued is_client in_channel i observed => pick_obs queued is_client in_channel i =? observed
+  | CHex key digits =>
+    list_eqb (fun '(a, b) '(c, d) => (a =? c) && (b =? d)) (hex_enc key) digits && zlist_eqb (hex_dec digits) key
   end.
